@@ -20,7 +20,7 @@ COQ = os.path.join(VERIF, "coq")
 WORK = os.path.join(VERIF, "work")
 BUILD = os.path.join(VERIF, ".build")
 HARNESS = os.path.join(VERIF, "harness")
-REPO = "/repo"
+REPO = os.path.join(os.path.dirname(VERIF), "repo")
 NCPU = min(16, os.cpu_count() or 4)
 
 ALLOWED_AXIOMS = {
@@ -150,7 +150,7 @@ class Check:
                     axioms_used[cur] = []
                 else:
                     names = re.findall(r"^([A-Za-z_][A-Za-z0-9_.']*)\s*:", txt, re.M)
-                    axioms_used[cur] = names
+                    axioms_used[cur] = [n for n in names if n not in ("Axioms", "Variables", "Opaque", "Transparent")]
         for ln in out.splitlines():
             m = re.match(r"@@(THM|ASSUME|END)\s*(\S*)", ln)
             if m:
@@ -161,6 +161,15 @@ class Check:
             else:
                 buf.append(ln)
         flush()
+        if getattr(self, "update_pins", False):
+            os.makedirs(os.path.dirname(pins_file), exist_ok=True)
+            with open(pins_file, "w") as f:
+                for t in thms:
+                    st = statements.get(t, "")
+                    st = st.split(":", 1)[1].strip() if ":" in st else st
+                    f.write("%s : %s\n\n" % (t, st))
+            pinned = {}
+            self.log("pins rewritten: %s" % pins_file)
         discharged = 0
         for t in thms:
             ok = True
@@ -196,19 +205,22 @@ class Check:
         return problems
 
     # -------------------------------------------------------------- harness
-    def build_harness(self, timeout=1800):
+    def build_harness(self, timeout=1800, bin="vharness", release=False):
+        """Builds one harness binary (src/main.rs = vharness, src/bin/<bin>.rs otherwise) against
+        the current working tree of the repository with the hooks enabled."""
         env = dict(os.environ)
         env["CARGO_NET_OFFLINE"] = "true"
         env["RUSTFLAGS"] = "--cfg clarabel_verif"
-        rc, out, dt = sh(["cargo", "build", "--offline"], timeout=timeout, cwd=HARNESS, env=env)
+        cmd = ["cargo", "build", "--offline", "--bin", bin] + (["--release"] if release else [])
+        rc, out, dt = sh(cmd, timeout=timeout, cwd=HARNESS, env=env)
         self.log("harness build rc=%d (%.1fs)" % (rc, dt))
         return rc == 0, out
 
-    def run_harness(self, args, out_name, timeout=1800):
+    def run_harness(self, args, out_name, timeout=1800, bin="vharness", release=False):
         outp = os.path.join(self.wdir, out_name)
         if os.path.exists(outp):
             os.remove(outp)
-        exe = os.path.join(BUILD, "target", "debug", "vharness")
+        exe = os.path.join(BUILD, "target", "release" if release else "debug", bin)
         rc, out, dt = sh([exe] + args + ["--out", outp], timeout=timeout, cwd=self.wdir)
         self.log("harness %s rc=%d (%.1fs)" % (" ".join(args), rc, dt))
         recs = []
